@@ -255,6 +255,15 @@ func (ex *Exec) callBuiltin(g *Goroutine, fr *Frame, b *builtinTarget, args []Va
 		case Slice:
 			dl, sl := dst.lenOr0(ex), src.lenOr0(ex)
 			n = c.Ite(c.Cmp(OSlt, dl, sl), dl, sl)
+			// filling a fixed-size buffer from a functional source: decide now
+			// whether the source covers it, so that the cells stay a uniform view
+			if dst.Arr != nil && src.Arr != nil && dst.Arr.isDense() && !src.Arr.isDense() && dl.IsConst() && !sl.IsConst() {
+				if ex.branch(c.Cmp(OSle, dl, sl), site.pos) {
+					n = dl
+				} else {
+					n = sl
+				}
+			}
 			if dst.Arr != nil && src.Arr != nil {
 				ex.copyElems(dst.Arr, dst.Off, src.Arr, src.Off, n)
 			}
